@@ -151,6 +151,8 @@ def toLowerRune (c : Nat) : Nat :=
   else if 192 ≤ c ∧ c ≤ 222 ∧ c ≠ 215 then c + 32
   else if 913 ≤ c ∧ c ≤ 929 then c + 32          -- Α..Ρ
   else if 931 ≤ c ∧ c ≤ 939 then c + 32          -- Σ..Ϋ
+  else if 8544 ≤ c ∧ c ≤ 8559 then c + 16        -- ROMAN NUMERAL ONE..ONE THOUSAND (cased, category Nl)
+  else if 9398 ≤ c ∧ c ≤ 9423 then c + 26        -- CIRCLED LATIN CAPITAL LETTER A..Z (cased, category So)
   else if c = 8490 then 107                       -- KELVIN SIGN
   else c
 
